@@ -496,10 +496,17 @@ def translator_obligations(ctx, bd):
     if rc != 0:
         info["detail"] += " generated definitions do not compile: " + out[-600:]
         return info
-    body = ["From Coq Require Import List ZArith Bool.", "Require Whad.C19.Maps Whad.C19.Model.", "Require C19gen.MapsGen.",
-            "Module G := C19gen.MapsGen.", "Import ListNotations.", "Open Scope Z_scope."]
+    # forall x, regenerated f x = snapshot f x : by conversion when the text is (alpha-)identical,
+    # otherwise by case analysis on every test + linear arithmetic with Euclidean division -- a
+    # proof for ALL integers, so every theorem about the snapshot maps holds of the regenerated ones
+    body = ["From Coq Require Import List ZArith Bool Lia ZifyBool.", "Require Whad.C19.Maps Whad.C19.Model.", "Require C19gen.MapsGen.",
+            "Module G := C19gen.MapsGen.", "Import ListNotations.", "Open Scope Z_scope.",
+            "Ltac Zify.zify_post_hook ::= Z.to_euclidean_division_equations.",
+            "Ltac split_ifs := repeat match goal with |- context [if ?b then _ else _] => let E := fresh \"E\" in destruct b eqn:E end.",
+            "Ltac ext_eq := cbv zeta; split_ifs; first [reflexivity | lia | (f_equal; lia) | (exfalso; lia)]."]
     for n in names:
-        body.append("Lemma same_%s : forall x, G.%s x = Whad.C19.Maps.%s x. Proof. intros x; reflexivity. Qed." % (n, n, n))
+        body.append("Lemma same_%s : forall x, G.%s x = Whad.C19.Maps.%s x.\nProof. intros x; first [reflexivity; idtac \"OBL_CONV %s\" "
+                    "| timeout 120 (unfold G.%s, Whad.C19.Maps.%s; ext_eq); idtac \"OBL_EXT %s\"]. Qed." % (n, n, n, n, n, n, n))
         body.append('Goal True. idtac "OBL_OK same_%s". Abort.' % n)
     if not errors:
         body.append(SWEEPS)
@@ -507,10 +514,13 @@ def translator_obligations(ctx, bd):
         f.write("\n".join(body) + "\n")
     rc, out = C.sh(["timeout", "300", "coqc", "-Q", os.path.join(C.COQ, "theories"), "Whad", "-Q", gdir, "C19gen", "GenObl.v"], cwd=gdir)
     info["n_ok"] = len(re.findall(r"OBL_OK", out))
+    info["proved_equal_not_convertible"] = re.findall(r"OBL_EXT (\w+)", out)
     if rc == 0 and not errors:
         info["ok"] = True
-        info["detail"] = "generated maps %s the committed snapshot; %d translator obligations checked" % (
-            "are textually identical to" if info["identical"] else "are convertible with", info["n_ok"])
+        ext = info["proved_equal_not_convertible"]
+        how = ("are textually identical to" if info["identical"] else
+               ("are convertible with" if not ext else "are proved equal for all integers (%s: case analysis + lia; the others by conversion) to" % ", ".join(ext)))
+        info["detail"] = "generated maps %s the committed snapshot; %d translator obligations checked" % (how, info["n_ok"])
         return info
     if errors:
         return info
